@@ -9,17 +9,20 @@ import (
 	"net/http"
 	"net/http/httptest"
 	"regexp"
+	"sort"
 	"strings"
 	"sync"
 	"time"
 
 	"github.com/ethereum/go-ethereum/common"
+	"github.com/go-chi/chi/v5"
 	"github.com/go-chi/chi/v5/middleware"
 	"github.com/jackc/pgproto3/v2"
 	"github.com/jackc/pgx/v4/pgxpool"
 
 	"github.com/shutter-network/rolling-shutter/rolling-shutter/keyper/epochkghandler"
 	"github.com/shutter-network/rolling-shutter/rolling-shutter/keyper/kprapi"
+	"github.com/shutter-network/rolling-shutter/rolling-shutter/keyper/kproapi"
 	"github.com/shutter-network/rolling-shutter/rolling-shutter/medley/broker"
 )
 
@@ -196,7 +199,11 @@ type Gate struct {
 
 const watchdog = 10 * time.Second
 
-func NewGate(write bool) (*Gate, error) {
+// NewGate builds a fresh server instance.  stack "server" = the router of
+// kprapi.Server.setupRouter; stack "gate" = the same composition without the request validator
+// (outer router with Logger/Recoverer, Mount("/v1", StripPrefix), kproapi.ConfigMiddleware and
+// kproapi.HandlerFromMux on the real Server): the named stack "gate" of specs/HttpGate.tla.
+func NewGate(write bool, stack string) (*Gate, error) {
 	pg := &pgObs{}
 	pool, err := pg.pool()
 	if err != nil {
@@ -207,7 +214,11 @@ func NewGate(write bool) (*Gate, error) {
 	var perr any
 	func() {
 		defer func() { perr = recover() }()
-		g.h = kprapi.VerifRouter(srv)
+		if stack == "gate" {
+			g.h = gateOnlyRouter(srv, write)
+		} else {
+			g.h = kprapi.VerifRouter(srv)
+		}
 	}()
 	if perr != nil {
 		return nil, fmt.Errorf("setupRouter panicked: %v", perr)
@@ -215,30 +226,185 @@ func NewGate(write bool) (*Gate, error) {
 	return g, nil
 }
 
+func gateOnlyRouter(srv *kprapi.Server, write bool) http.Handler {
+	router := chi.NewRouter()
+	router.Use(middleware.Logger)
+	router.Use(middleware.Recoverer)
+	inner := chi.NewRouter()
+	inner.Use(kproapi.ConfigMiddleware(write))
+	_ = kproapi.HandlerFromMux(srv, inner)
+	router.Mount("/v1", http.StripPrefix("/v1", inner))
+	return router
+}
+
 func (g *Gate) Close() { g.pool.Close() }
 
-// Do serves one request (requests of one Gate are served one after the other).
-func (g *Gate) Do(method, target, body string, h Hdr) (ob Obs, err error) {
-	var req *http.Request
-	func() {
-		defer func() {
-			if r := recover(); r != nil {
-				err = fmt.Errorf("httptest.NewRequest(%q, %q): %v", method, target, r)
-			}
-		}()
-		if h.Body {
-			req = httptest.NewRequest(method, target, strings.NewReader(body))
-		} else {
-			req = httptest.NewRequest(method, target, nil)
+func newRequest(method, target, body string, h Hdr) (req *http.Request, err error) {
+	defer func() {
+		if r := recover(); r != nil {
+			err = fmt.Errorf("httptest.NewRequest(%q, %q): %v", method, target, r)
 		}
 	}()
-	if err != nil {
-		return ob, err
+	if h.Body {
+		req = httptest.NewRequest(method, target, strings.NewReader(body))
+	} else {
+		req = httptest.NewRequest(method, target, nil)
 	}
 	for name, v := range map[string]string{"Accept": h.Accept, "Content-Type": h.Ctype, "X-HTTP-Method-Override": h.Override} {
 		if v != "-" && v != "" {
 			req.Header.Set(name, v)
 		}
+	}
+	return req, nil
+}
+
+// StressResult is what hammering one instance with two kinds of request at once showed.
+type StressResult struct {
+	Obs  [2][]Obs // distinct answers per kind (Effect is Pong or None: only what the answer itself shows)
+	N    [2]int   // requests served per kind
+	Eff  []string // effects seen on the instance's channels / database connection
+	Hang bool
+}
+
+// Stress sends kind 0 from g0 goroutines and kind 1 from g1 goroutines to this ONE instance for
+// dur (or until a Shutdown / Trigger effect is seen while stopOnWrite is set).
+func (g *Gate) Stress(reqs [2]Req, body string, g0, g1 int, dur time.Duration, stopOnWrite bool) (StressResult, error) {
+	var res StressResult
+	var mu sync.Mutex
+	seen := [2]map[Obs]bool{{}, {}}
+	effs := map[string]bool{}
+	stop := make(chan struct{})
+	var stopOnce sync.Once
+	halt := func() { stopOnce.Do(func() { close(stop) }) }
+	drainDone := make(chan struct{})
+	quitDrain := make(chan struct{})
+	go func() {
+		defer close(drainDone)
+		note := func(e string) {
+			mu.Lock()
+			effs[e] = true
+			mu.Unlock()
+			if stopOnWrite {
+				halt()
+			}
+		}
+		for {
+			select {
+			case <-g.trig:
+				note("Trigger")
+			case <-g.shut:
+				note("Shutdown")
+			case <-quitDrain:
+				return
+			}
+		}
+	}()
+	g.pg.take()
+	var firstErr error
+	var wg sync.WaitGroup
+	worker := func(kind int) {
+		defer wg.Done()
+		rq := reqs[kind]
+		for {
+			req, err := newRequest(rq.M, rq.Target, body, rq.H)
+			if err != nil {
+				mu.Lock()
+				firstErr = err
+				mu.Unlock()
+				return
+			}
+			ro := &reqObs{}
+			req = req.WithContext(context.WithValue(req.Context(), obsKey{}, ro))
+			rec := httptest.NewRecorder()
+			var esc any
+			func() {
+				defer func() { esc = recover() }()
+				g.h.ServeHTTP(rec, req)
+			}()
+			b := rec.Body.Bytes()
+			ob := Obs{Status: rec.Code, Bk: BodyKey(b), Effect: "None"}
+			if rec.Code == 200 && string(b) == "pong" {
+				ob.Effect = "Pong"
+			}
+			ro.mu.Lock()
+			if len(ro.panics) > 0 {
+				ob.Panic = ro.panics[0]
+			}
+			ro.mu.Unlock()
+			if esc != nil {
+				ob.Panic = fmt.Sprint(esc)
+			}
+			if len(ob.Panic) > 200 {
+				ob.Panic = ob.Panic[:200]
+			}
+			mu.Lock()
+			seen[kind][ob] = true
+			res.N[kind]++
+			mu.Unlock()
+			select {
+			case <-stop:
+				return
+			default:
+			}
+		}
+	}
+	for i := 0; i < g0; i++ {
+		wg.Add(1)
+		go worker(0)
+	}
+	for i := 0; i < g1; i++ {
+		wg.Add(1)
+		go worker(1)
+	}
+	timer := time.AfterFunc(dur, halt)
+	defer timer.Stop()
+	finished := make(chan struct{})
+	go func() { wg.Wait(); close(finished) }()
+	select {
+	case <-finished:
+	case <-time.After(dur + watchdog):
+		res.Hang = true
+		halt()
+	}
+	close(quitDrain)
+	<-drainDone
+	for _, qn := range g.pg.take() {
+		effs["Read:"+qn] = true
+	}
+	mu.Lock()
+	defer mu.Unlock()
+	for k := 0; k < 2; k++ {
+		res.Obs[k] = []Obs{}
+		for ob := range seen[k] {
+			res.Obs[k] = append(res.Obs[k], ob)
+		}
+		sort.Slice(res.Obs[k], func(i, j int) bool {
+			a, b := res.Obs[k][i], res.Obs[k][j]
+			if a.Status != b.Status {
+				return a.Status < b.Status
+			}
+			if a.Bk != b.Bk {
+				return a.Bk < b.Bk
+			}
+			return a.Effect+a.Panic < b.Effect+b.Panic
+		})
+	}
+	res.Eff = []string{}
+	for e := range effs {
+		res.Eff = append(res.Eff, e)
+	}
+	sort.Strings(res.Eff)
+	if res.Hang {
+		res.Eff = append(res.Eff, "Hang")
+	}
+	return res, firstErr
+}
+
+// Do serves one request (requests of one Gate are served one after the other).
+func (g *Gate) Do(method, target, body string, h Hdr) (ob Obs, err error) {
+	req, err := newRequest(method, target, body, h)
+	if err != nil {
+		return ob, err
 	}
 	ro := &reqObs{}
 	req = req.WithContext(context.WithValue(req.Context(), obsKey{}, ro))
